@@ -193,7 +193,7 @@ def run(ctx, b, drv):
             sig = first_follow_ok(G.g, start)
             ctx.add_obligation('table:%s/%s has no nullable rule and no FIRST/FOLLOW conflict' % (v, start), sig is None, sig or '')
             if sig:
-                ctx.violation('C06:' + sig, dict(kind='input', version=v, start=start))
+                pend.add('C06:' + sig, dict(kind='theorem', obligation='gen/LL1_%s.v:ll1_tables_ok (FIRST/FOLLOW conflict recomputed in the harness)' % impl.vn(v), version=v, start=start, conflict=sig))
         reqs, cases = [], []
         for start in ('file_input', 'eval_input'):
             for i in range(per):
